@@ -78,6 +78,10 @@ pub fn slow_keep(s: &Subject) -> bool {
     if !slow_build() {
         return true;
     }
+    // values with thousands of elements / definitions with hundreds of variants cost minutes each under the interpreter
+    if s.label.contains("10001") || s.label.contains("Cur25") || s.label.contains("CurBig") {
+        return false;
+    }
     (0..=s.e.version).any(|v| s.e.ops.packed(v)) || s.index % 7 == 0
 }
 pub fn nvals(ctx: &Ctx, quick: usize, thorough: usize) -> usize {
